@@ -11,6 +11,7 @@ package main
 import (
 	"context"
 	"fmt"
+	"net/url"
 	"sort"
 	"strings"
 	"sync"
@@ -146,6 +147,7 @@ type scen struct {
 	Transition string            `json:"transition,omitempty"`
 	Refresher  string            `json:"refresher,omitempty"`
 
+	nested   bool
 	refspec  reference.Spec
 	regHosts []string // contacted registry hosts in order: mirrors..., origin
 	w        *world
@@ -253,11 +255,32 @@ func genScenario(rng *prng.R, idx int, kind string) *scen {
 			sc.Static[h] = sc.static[h][0]
 		}
 	}
-	if kind == "seq" && rng.Chance(1, 5) { // nested redirection CDN -> CDN (followed only by the inner http client)
+	// nested redirection, only meaningful where an http client follows redirects by itself
+	// (level inner; fs/remote refuses a redirect that answers with another redirect)
+	if kind == "seq" && sc.Level == "inner" && rng.Chance(3, 5) {
 		w.hosts["cdn-hop.example"] = &hostSrv{name: "cdn-hop.example", kind: kCDN, role: "cdn", realmHost: "auth-cdn.example"}
+		sc.nested = true
+		for i, hn := range sc.regHosts {
+			h := w.hosts[hn]
+			b, c, a := h.cdn, "cdn-hop.example", h.name
+			shapes := [][]string{
+				{b, b},    // A -> B/entry -> B/object
+				{b, b, c}, // A -> B -> B -> C
+				{b, b, b},
+				{b, c}, // every hop changes host
+				{b, c, c},
+				{b, a}, // returns to a path on the ORIGINAL host last
+				{b, b, a},
+				{b, c, b}, // comes back to an earlier foreign host
+			}
+			h.chain = shapes[rng.Intn(len(shapes))]
+			if i == 0 { // the first host must actually redirect
+				h.mode.Store(int32(rng.Pick(int(m302), int(m307))))
+			}
+		}
 		for _, h := range w.hosts {
-			if h.kind == kCDN && h.name != "cdn-hop.example" {
-				h.hopTo = "cdn-hop.example"
+			if h.kind == kCDN {
+				h.evil401.Store(false)
 			}
 		}
 	}
@@ -293,7 +316,7 @@ func genScenario(rng *prng.R, idx int, kind string) *scen {
 	for _, h := range sc.regHosts {
 		s := w.hosts[h]
 		sc.Hosts = append(sc.Hosts, hostDesc{Host: h, Role: s.role, Auth: [...]string{"none", "basic", "bearer"}[s.auth], Mode: modeNames[s.mode.Load()], CDN: s.cdn, Realm: s.realmHost,
-			Extra: fmt.Sprintf("cdn.headForbidden=%v cdn.singleRangeOnly=%v cdn.nestedRedirectTo=%q", w.hosts[s.cdn].headForbidden, w.hosts[s.cdn].singleOnly, w.hosts[s.cdn].hopTo)})
+			Extra: fmt.Sprintf("cdn.headForbidden=%v cdn.singleRangeOnly=%v redirect_chain=%v", w.hosts[s.cdn].headForbidden, w.hosts[s.cdn].singleOnly, s.chain)})
 	}
 
 	// CRI requests seen by the keychain before the blob is resolved
@@ -366,6 +389,13 @@ func genScenario(rng *prng.R, idx int, kind string) *scen {
 		for i, n := 0, rng.Range(0, 2); i < n; i++ {
 			sc.hops = append(sc.hops, hop{Kind: "ReadAt", A: 1})
 		}
+	}
+	if sc.nested {
+		// make sure every request path travels the chain: fetch, check, then a refused range
+		// fetch whose URL refresh is redirected, then a full re-resolution (resolve + size probe)
+		sc.hops = append(sc.hops, hop{Kind: "ReadAt", A: 1}, hop{Kind: "Check"},
+			hop{Kind: "SwitchMode", A: 0, B: int(m403Redir)}, hop{Kind: "ReadAt", A: 1},
+			hop{Kind: "SwitchMode", A: 0, B: int(m302)}, hop{Kind: "BlobRefresh"}, hop{Kind: "ReadAt", A: 1})
 	}
 	for _, h := range sc.hops {
 		sc.Script = append(sc.Script, h.String())
@@ -651,8 +681,16 @@ func runScenario(r *vf.Run, drv *gstate, sc *scen, rng *prng.R) {
 			role = h.role
 		}
 		r.Count("requests", 1)
-		if strings.Contains(q.URL, "hop=1") {
-			r.Count(fmt.Sprintf("requests_after_nested_redirect[%s,status=%d,followed=%v]", q.Path, q.Status, q.Followed), 1)
+		if u, err := url.Parse(q.URL); err == nil && q.Followed && u.Query().Get("hop") != "" && u.Query().Get("hop") != "0" {
+			kind := "to-another-foreign-host"
+			switch {
+			case u.Query().Get("via") == q.Host:
+				kind = "back-to-the-original-host"
+			case u.Query().Get("prev") == q.Host:
+				kind = "stays-on-the-same-foreign-host"
+			}
+			r.Count(fmt.Sprintf("nested_redirect_hops[%s,hop=%s,%s,own-secrets=%v]", q.Path, u.Query().Get("hop"), kind, own > 0), 1)
+			r.Distinct("nested_redirect_hops", fmt.Sprintf("%s hop=%s %s status=%d", q.Path, u.Query().Get("hop"), kind, q.Status))
 		}
 		r.Count(fmt.Sprintf("requests[%s->%s]", q.Path, role), 1)
 		r.Distinct("request_shapes", fmt.Sprintf("%s %s->%s status=%d secrets=%d", q.Method, q.Path, role, q.Status, own))
